@@ -21,19 +21,19 @@ func tp2b(name, tps, t string) Kind { k := tp2(name, tps, t); k.Core = false; re
 var kinds = []Kind{
 	// basic
 	kc("bool", "bool"), kc("int", "int"), k("int8", "int8"), k("int16", "int16"), k("int32", "int32"), k("int64", "int64"),
-	k("uint", "uint"), kc("uint8", "uint8"), k("uint16", "uint16"), k("uint32", "uint32"), k("uint64", "uint64"), k("uintptr", "uintptr"),
+	k("uint", "uint"), k("uint8", "uint8"), k("uint16", "uint16"), k("uint32", "uint32"), k("uint64", "uint64"), k("uintptr", "uintptr"),
 	k("float32", "float32"), kc("float64", "float64"), k("complex64", "complex64"), k("complex128", "complex128"),
 	kc("string", "string"), k("byte", "byte"), k("rune", "rune"), kc("unsafe.Pointer", "unsafe.Pointer"), kc("error", "error"), kc("any", "any"),
 	// named / alias
 	kc("NInt", "NInt"), k("NUint8", "NUint8"), kc("NStr", "NStr"), k("NBool", "NBool"), k("NFloat", "NFloat"), k("NCplx", "NCplx"),
-	kc("NUPtr", "NUPtr"), k("AInt", "AInt"), kc("ASl", "ASl"), kc("APtr", "APtr"),
+	k("NUPtr", "NUPtr"), k("AInt", "AInt"), k("ASl", "ASl"), kc("APtr", "APtr"),
 	// arrays
-	kc("[0]int", "[0]int"), kc("[4]byte", "[4]byte"), k("[8]byte", "[8]byte"), k("[3]string", "[3]string"), k("[2][2]int", "[2][2]int"),
+	k("[0]int", "[0]int"), kc("[4]byte", "[4]byte"), k("[8]byte", "[8]byte"), k("[3]string", "[3]string"), k("[2][2]int", "[2][2]int"),
 	k("NArr0", "NArr0"), kc("NArr4", "NArr4"), k("[4]int", "[4]int"), k("[2]St", "[2]St"), k("[1]any", "[1]any"), k("[2]*int", "[2]*int"),
 	// slices
-	kc("[]int", "[]int"), kc("[]byte", "[]byte"), k("[]rune", "[]rune"), k("[]string", "[]string"), k("[]any", "[]any"), k("[][]int", "[][]int"),
-	k("[]St", "[]St"), kc("[]*St", "[]*St"), kc("NSl", "NSl"), k("NBytes", "NBytes"), k("[]error", "[]error"), k("[]NInt", "[]NInt"),
-	k("[]func()", "[]func()"), kc("GSl[int]", "GSl[int]"), kc("AGen[int]", "AGen[int]"), k("[][4]byte", "[][4]byte"), k("[]chan int", "[]chan int"),
+	kc("[]int", "[]int"), k("[]byte", "[]byte"), k("[]rune", "[]rune"), k("[]string", "[]string"), k("[]any", "[]any"), k("[][]int", "[][]int"),
+	k("[]St", "[]St"), k("[]*St", "[]*St"), kc("NSl", "NSl"), k("NBytes", "NBytes"), k("[]error", "[]error"), k("[]NInt", "[]NInt"),
+	k("[]func()", "[]func()"), kc("GSl[int]", "GSl[int]"), k("AGen[int]", "AGen[int]"), k("[][4]byte", "[][4]byte"), k("[]chan int", "[]chan int"),
 	k("[]map[string]int", "[]map[string]int"), k("[]float64", "[]float64"), k("[]bool", "[]bool"),
 	// maps
 	kc("map[string]int", "map[string]int"), k("map[int][]int", "map[int][]int"), k("map[St]bool", "map[St]bool"), k("map[any]any", "map[any]any"),
@@ -41,29 +41,29 @@ var kinds = []Kind{
 	k("map[[2]int]string", "map[[2]int]string"), k("map[IfM]int", "map[IfM]int"), k("map[string]St", "map[string]St"), k("map[string][]string", "map[string][]string"),
 	k("map[string]bool", "map[string]bool"), k("map[int]func()", "map[int]func()"),
 	// channels
-	kc("chan int", "chan int"), kc("<-chan int", "<-chan int"), kc("chan<- int", "chan<- int"), k("chan struct{}", "chan struct{}"), kc("NCh", "NCh"),
+	kc("chan int", "chan int"), k("<-chan int", "<-chan int"), k("chan<- int", "chan<- int"), k("chan struct{}", "chan struct{}"), kc("NCh", "NCh"),
 	k("NChR", "NChR"), k("chan []int", "chan []int"), k("chan error", "chan error"), k("GCh[int]", "GCh[int]"), k("chan chan int", "chan chan int"),
 	k("<-chan *St", "<-chan *St"), k("chan any", "chan any"), k("chan bool", "chan bool"),
 	// functions, iterators
-	kc("func()", "func()"), kc("func(int) int", "func(int) int"), k("func(...int)", "func(...int)"), kc("func() (int, error)", "func() (int, error)"),
-	k("func() error", "func() error"), kc("func() *St", "func() *St"), kc("iter.Seq[int]", "iter.Seq[int]"), kc("iter.Seq2[string,int]", "iter.Seq2[string, int]"),
+	kc("func()", "func()"), kc("func(int) int", "func(int) int"), k("func(...int)", "func(...int)"), k("func() (int, error)", "func() (int, error)"),
+	k("func() error", "func() error"), k("func() *St", "func() *St"), kc("iter.Seq[int]", "iter.Seq[int]"), kc("iter.Seq2[string,int]", "iter.Seq2[string, int]"),
 	kc("func(yield func() bool)", "func(yield func() bool)"), k("func(yield func(int) bool)", "func(yield func(int) bool)"),
-	k("func(yield func(int, string) bool)", "func(yield func(int, string) bool)"), kc("NFn", "NFn"), k("NFn1", "NFn1"), kc("NSeq", "NSeq"), k("NSeq0", "NSeq0"),
+	k("func(yield func(int, string) bool)", "func(yield func(int, string) bool)"), kc("NFn", "NFn"), k("NFn1", "NFn1"), k("NSeq", "NSeq"), k("NSeq0", "NSeq0"),
 	k("GFn[int]", "GFn[int]"), k("func(func(int) bool) bool", "func(func(int) bool) bool"), k("func(yield func(int))", "func(yield func(int))"),
 	k("func() any", "func() any"), k("func() []int", "func() []int"), k("func(string, ...any) string", "func(string, ...any) string"),
 	k("func() func()", "func() func()"), k("iter.Seq[*St]", "iter.Seq[*St]"), k("func() chan int", "func() chan int"), k("func() bool", "func() bool"),
 	// pointers
 	kc("*int", "*int"), k("*string", "*string"), kc("*[4]byte", "*[4]byte"), kc("*[0]int", "*[0]int"), k("*[4]int", "*[4]int"), k("*[8]byte", "*[8]byte"),
-	kc("*St", "*St"), kc("*Emb", "*Emb"), kc("**int", "**int"), kc("*Gen[int]", "*Gen[int]"), k("NPInt", "NPInt"), kc("NPArr4", "NPArr4"), kc("NPSt", "NPSt"),
-	kc("*[]int", "*[]int"), k("*map[string]int", "*map[string]int"), k("*chan int", "*chan int"), k("*any", "*any"), k("*error", "*error"), k("*func()", "*func()"),
-	k("*NInt", "*NInt"), k("*Empty", "*Empty"), kc("*Rec", "*Rec"), k("*NArr4", "*NArr4"), k("GPtr[int]", "GPtr[int]"), k("*[2][2]int", "*[2][2]int"),
+	kc("*St", "*St"), kc("*Emb", "*Emb"), k("**int", "**int"), kc("*Gen[int]", "*Gen[int]"), k("NPInt", "NPInt"), k("NPArr4", "NPArr4"), kc("NPSt", "NPSt"),
+	k("*[]int", "*[]int"), k("*map[string]int", "*map[string]int"), k("*chan int", "*chan int"), k("*any", "*any"), k("*error", "*error"), k("*func()", "*func()"),
+	k("*NInt", "*NInt"), k("*Empty", "*Empty"), kc("*Rec", "*Rec"), kc("*NArr4", "*NArr4"), k("GPtr[int]", "GPtr[int]"), k("*[2][2]int", "*[2][2]int"),
 	k("*NSl", "*NSl"), k("*bool", "*bool"), k("*float64", "*float64"), k("**St", "**St"), k("*unsafe.Pointer", "*unsafe.Pointer"),
 	// structs
-	kc("St", "St"), kc("Empty", "Empty"), kc("Emb", "Emb"), kc("EmbG", "EmbG"), k("struct{}", "struct{}"), k("struct{A int}", "struct{ A int }"),
-	kc("Gen[int]", "Gen[int]"), k("Gen[string]", "Gen[string]"), k("Gen2[string,int]", "Gen2[string, int]"), kc("Rec", "Rec"),
+	kc("St", "St"), k("Empty", "Empty"), kc("Emb", "Emb"), kc("EmbG", "EmbG"), k("struct{}", "struct{}"), k("struct{A int}", "struct{ A int }"),
+	kc("Gen[int]", "Gen[int]"), k("Gen[string]", "Gen[string]"), k("Gen2[string,int]", "Gen2[string, int]"), k("Rec", "Rec"),
 	k("struct{F func(); C chan int}", "struct {\n\tF func()\n\tC chan int\n}"), k("Gen[Gen[int]]", "Gen[Gen[int]]"), k("Gen[*St]", "Gen[*St]"), k("Gen[[]int]", "Gen[[]int]"),
 	// interfaces
-	kc("IfM", "IfM"), kc("IfEmb", "IfEmb"), kc("IfPriv", "IfPriv"), k("interface{M() int}", "interface{ M() int }"), k("interface{String() string}", "interface{ String() string }"),
+	kc("IfM", "IfM"), k("IfEmb", "IfEmb"), k("IfPriv", "IfPriv"), k("interface{M() int}", "interface{ M() int }"), k("interface{String() string}", "interface{ String() string }"),
 	k("interface{Error() string}", "interface{ Error() string }"), k("interface{IfM; PM() *St}", "interface {\n\tIfM\n\tPM() *St\n}"),
 
 	// type parameters, one per constraint shape
